@@ -453,6 +453,14 @@ impl Sim {
                 self.stats.bump("bad_parent_cut_refused");
             }
             (Err(e), Some(x)) if classify(e) == exp_name(x) => {
+                if clean_session && matches!(x, ExpErr::NoSuchParent(_)) {
+                    // C17: within an undisturbed session commands arrive parents-first, so the
+                    // requester can add all of them in order. The refusal itself is right (the
+                    // parent really is missing); sending the command was wrong.
+                    if let ExpErr::NoSuchParent(want) = x {
+                        self.violation("C17", "C17.parents-first", "sync-missing-parent", format!("{ctx}: an undisturbed session delivered a command whose parent {} the requester neither held nor had received earlier", short(want)));
+                    }
+                }
                 if let (ClientError::NoSuchParent(got), ExpErr::NoSuchParent(want)) = (e, x) {
                     if got != want {
                         self.anomaly(format!("{ctx}: NoSuchParent names {} model expected {}", short(got), short(want)));
@@ -795,6 +803,7 @@ impl Sim {
                 // Injected disk error: the call may fail; the replica is restarted and must
                 // recover a committed state (checked in `step_restart`).
                 self.stats.bump("fault.disk_error_failed_call");
+                self.after_failed_io(r, &ctx, &before, "C08");
             }
             (Err(e), Want::Commit) if classify(&e) == "EmptyPerspective" && self.last_rejected[r].is_some() => {
                 self.violation("C06", "C06.accepted-not-committed", "empty-perspective-after-rejection", format!("{ctx}: commit failed with EmptyPerspective after a rejected command; {} accepted commands are lost", acc.len()));
@@ -997,6 +1006,7 @@ impl Sim {
             }
             (Err(_), _) if hard => {
                 self.stats.bump("fault.disk_error_failed_call");
+                self.after_failed_io(r, &ctx, &before, "C07");
             }
             (Ok(()), false) => {
                 self.violation("C07", "C07.action-outcome", "action-should-fail", format!("{ctx}: action succeeded although command evaluation fails in the model"));
